@@ -216,6 +216,10 @@ def apply(st, op):
             if any(b not in st.bases[p] for b in bs):
                 return st, False, trig, "not a base", None
             new.bases[p] = [b for b in st.bases[p] if b not in bs]
+            desc = st.descendants(tbl0, p)
+            fam = set(desc) | {p}
+            if any(len([b for b in st.bases[s_] if b in fam]) >= 2 for s_ in desc):
+                trig.add("C03_D3_remove_bases_diamond")   # remove_bases walks the OLD graph breadth first: IndexError half-way
     elif k == "cells":
         p, n = tuple(op[1]), op[2]
         if p not in st.bases:
@@ -276,7 +280,7 @@ def apply(st, op):
             trig.add("no_rollback")                 # add_bases / remove_bases / del_ref fail half-way (C11)
         return st, False, trig, None, tbl1
     # ---- accepted: which recorded defects would make the library deviate?
-    for (s, n), b in B1.items():
+    for (s2, n2), b in B1.items():
         if b[0] in ("Def", "Der") and not new.exists(tbl1, b[2]):
             trig.add("dangling_target")
     if k == "setref" and existing and mode == "auto":
@@ -287,15 +291,15 @@ def apply(st, op):
     if k in ("addb", "rmb", "space"):
         p = tuple(op[1])
         real = {p} | {s for s in new.bases if p in tbl1.get(s, ()) or p in tbl0.get(s, ())}
-        for (s, n), b in B1.items():
-            if s not in real and B0.get((s, n), ("NoRef",)) != b:
+        for (s2, n2), b in B1.items():
+            if s2 not in real and B0.get((s2, n2), ("NoRef",)) != b:
                 trig.add("stale_outer_root")
     if k in ("addb", "rmb", "delref"):
-        for (s, n), b in B1.items():
-            b0 = B0.get((s, n), ("NoRef",))
-            if b0[0] == "Der" and b[0] == "Der" and st.first_definer(tbl0, s, n) != new.first_definer(tbl1, s, n):
-                d0, d1 = st.first_definer(tbl0, s, n), new.first_definer(tbl1, s, n)
-                if st.defs[(d0, n)][0] != new.defs[(d1, n)][0]:
+        for (s2, n2), b in B1.items():
+            b0 = B0.get((s2, n2), ("NoRef",))
+            if b0[0] == "Der" and b[0] == "Der" and st.first_definer(tbl0, s2, n2) != new.first_definer(tbl1, s2, n2):
+                d0, d1 = st.first_definer(tbl0, s2, n2), new.first_definer(tbl1, s2, n2)
+                if st.defs[(d0, n2)][0] != new.defs[(d1, n2)][0]:
                     trig.add("stale_mode")
     return new, True, trig, None, tbl1
 
